@@ -181,7 +181,8 @@ func runRewardCase(c *core.Ctx, p *core.Plan, rc *RewardCase) {
 			}
 			sg := fmt.Sprintf("C27/direct/era%d/rule-exceeds-pool-and-is-refused", rc.Era)
 			if class != "" {
-				sg = fmt.Sprintf("C27/direct/era%d%s", rc.Era, class)
+				// shape of the round AND what went wrong in it
+				sg = fmt.Sprintf("C27/direct/era%d%s/rule-exceeds-pool-and-is-refused", rc.Era, class)
 			}
 			c.Violate("C27", "distribution", sg,
 				"%s: the era's rule attributed more than the pool; distributeDPOSReward refused it (%v) - a node clearing this round would stop", what, derr)
